@@ -50,6 +50,8 @@ package plonk
 //@ lemma pp_defs(q, r, k) = pp_start(q, k) == k * q && pp_len(q, r, k) == ite(k * q + q <= r, q, r - k * q)
 //@   props C16
 //@   reveal pp_start pp_len
+//@ lemma pp_exit(q, r, i, j) = implies(1 <= j && j <= q && i * q + j <= r && !(j < q && i * q + j < r), j == ite(i * q + q <= r, q, r - i * q))
+//@   props C16
 //@ def pp_chunk_start(cd, i) = pp_start(cd.QuotientDegreeFactor, i)
 //@ def pp_chunk_len(cd, i) = pp_len(cd.QuotientDegreeFactor, cd.Config.NumRoutedWires, i)
 //@ def pp_acc(o, c, npp, i) = ite(i == 0, o.PlonkZs[c], ite(i == npp + 1, o.PlonkZsNext[c], o.PartialProducts[c * npp + ite(i == 0, 0, i - 1)]))
@@ -62,14 +64,57 @@ package plonk
 //@   requires len(numerators) == p.commonData.Config.NumRoutedWires && len(denominators) == p.commonData.Config.NumRoutedWires
 //@   complete_requires challengeNum < len(openings.PlonkZs) && challengeNum < len(openings.PlonkZsNext) && (challengeNum + 1) * p.commonData.NumPartialProducts <= len(openings.PartialProducts)
 //@   ensures len(res) == p.commonData.NumPartialProducts + 1 && canonQEs(res)
-//@   ensures forall(i, 0, p.commonData.NumPartialProducts + 1, res[i] == qe_sub(
-//@        qe_mul(pp_acc(openings, challengeNum, p.commonData.NumPartialProducts, i), qe_chunk_prod(numerators, pp_chunk_start(p.commonData, i), pp_chunk_len(p.commonData, i))),
-//@        qe_mul(pp_acc(openings, challengeNum, p.commonData.NumPartialProducts, i + 1), qe_chunk_prod(denominators, pp_chunk_start(p.commonData, i), pp_chunk_len(p.commonData, i)))))
+//@   ensures forall(i, 0, p.commonData.NumPartialProducts + 1, res[i] == qe_subo(
+//@        qe_mulo(pp_acc(openings, challengeNum, p.commonData.NumPartialProducts, i), qe_chunk_prod(numerators, pp_chunk_start(p.commonData, i), pp_chunk_len(p.commonData, i))),
+//@        qe_mulo(pp_acc(openings, challengeNum, p.commonData.NumPartialProducts, i + 1), qe_chunk_prod(denominators, pp_chunk_start(p.commonData, i), pp_chunk_len(p.commonData, i)))))
 //@   loop 0 invariant 0 <= i && i <= numPartProds + 1 && i <= pow2(33) && len(productAccs) == numPartProds + 2 && canonQEs(productAccs) && len(partialProductChecks) == i && canonQEs(partialProductChecks)
 //@   loop 0 invariant forall(k, 0, numPartProds + 2, productAccs[k] == pp_acc(openings, challengeNum, numPartProds, k))
-//@   loop 0 invariant forall(k, 0, i, partialProductChecks[k] == qe_sub(
-//@          qe_mul(pp_acc(openings, challengeNum, numPartProds, k), qe_chunk_prod(numerators, pp_chunk_start(p.commonData, k), pp_chunk_len(p.commonData, k))),
-//@          qe_mul(pp_acc(openings, challengeNum, numPartProds, k + 1), qe_chunk_prod(denominators, pp_chunk_start(p.commonData, k), pp_chunk_len(p.commonData, k)))))
+//@   loop 0 invariant forall(k, 0, i, partialProductChecks[k] == qe_subo(
+//@          qe_mulo(pp_acc(openings, challengeNum, numPartProds, k), qe_chunk_prod(numerators, pp_chunk_start(p.commonData, k), pp_chunk_len(p.commonData, k))),
+//@          qe_mulo(pp_acc(openings, challengeNum, numPartProds, k + 1), qe_chunk_prod(denominators, pp_chunk_start(p.commonData, k), pp_chunk_len(p.commonData, k)))))
 //@   loop 0 use pp_defs(quotDegreeFactor, p.commonData.Config.NumRoutedWires, i)
+//@   loop 1 use pp_exit(quotDegreeFactor, p.commonData.Config.NumRoutedWires, i, j)
 //@   loop 1 invariant 1 <= j && j <= quotDegreeFactor && j <= pow2(33) && ppStartIdx + j <= len(numerators) && canonQE(numeProduct) && canonQE(denoProduct) &&
 //@        numeProduct == qe_chunk_prod(numerators, ppStartIdx, j) && denoProduct == qe_chunk_prod(denominators, ppStartIdx, j)
+
+// Horner with a base-field scalar: h(n) = 0, h(i) = t[i] + h(i+1) * alpha   (plonky2 reduce_with_powers_multi per challenge)
+//@ opaque def qe_smulo0(a0, a1, s) = (a0 * s) % P
+//@ opaque def qe_smulo1(a0, a1, s) = (a1 * s) % P
+//@ def qe_smulo(a, s) = tuple(qe_smulo0(a[0], a[1], s), qe_smulo1(a[0], a[1], s))
+//@ recdef qe_horner_s(t []QE, alpha int, i int) QE = ite(i >= len(t), tuple(0, 0), qe_addo(t[i], qe_smulo(qe_horner_s(t, alpha, i + 1), alpha)))
+
+// eval_vanishing_poly: terms = [L0(zeta) (Z_i(zeta) - 1)]_i ++ [partial product checks]_i ++ gate constraints, reduced with powers of each alpha.
+// The numerators beta_i * (k_j zeta) + w_j + gamma_i and denominators beta_i * sigma_j + w_j + gamma_i are loop invariants (loop 2).
+//@ func (p *PlonkChip) evalVanishingPoly(vars gates.EvaluationVars, proofChallenges variables.ProofChallenges, openings variables.OpeningSet, zetaPowN gl.QuadraticExtensionVariable) (res []gl.QuadraticExtensionVariable)
+//@   props C16 C05 C20
+//@   circuit
+//@   requires plonk_ok(p) && pp_relation(p.commonData) && canonQE(proofChallenges.PlonkZeta) && canonQE(zetaPowN)
+//@   requires canonSeq(proofChallenges.PlonkBetas) && canonSeq(proofChallenges.PlonkGammas) && canonSeq(proofChallenges.PlonkAlphas)
+//@   requires canonQEs(openings.Wires) && canonQEs(openings.PlonkSigmas) && canonQEs(openings.PlonkZs) && canonQEs(openings.PlonkZsNext) && canonQEs(openings.PartialProducts)
+//@   requires canonQEs(vars.localConstants) && canonQEs(vars.localWires)
+//@   complete_requires len(proofChallenges.PlonkBetas) == p.commonData.Config.NumChallenges && len(proofChallenges.PlonkGammas) == p.commonData.Config.NumChallenges && len(proofChallenges.PlonkAlphas) == p.commonData.Config.NumChallenges
+//@   complete_requires len(openings.Wires) >= p.commonData.Config.NumRoutedWires && len(openings.PlonkSigmas) >= p.commonData.Config.NumRoutedWires
+//@   complete_requires len(openings.PlonkZs) >= p.commonData.Config.NumChallenges && len(openings.PlonkZsNext) >= p.commonData.Config.NumChallenges && len(openings.PartialProducts) >= p.commonData.Config.NumChallenges * p.commonData.NumPartialProducts
+//@   honest !(l0_den(proofChallenges.PlonkZeta, pow2(p.commonData.DegreeBits))[0] == 0 && l0_den(proofChallenges.PlonkZeta, pow2(p.commonData.DegreeBits))[1] == 0)
+//@   ghost vanishingTerms []gl.QuadraticExtensionVariable
+//@   ghost l0Zeta gl.QuadraticExtensionVariable
+//@   ghost constraintTerms []gl.QuadraticExtensionVariable
+//@   ensures[l0] qe_mul(l0_den(proofChallenges.PlonkZeta, pow2(p.commonData.DegreeBits)), l0Zeta) == qe_sub(zetaPowN, tuple(1, 0))
+//@   ensures[terms] len(constraintTerms) == p.commonData.NumGateConstraints && canonQEs(vanishingTerms) &&
+//@        len(vanishingTerms) == p.commonData.Config.NumChallenges + p.commonData.Config.NumChallenges * (p.commonData.NumPartialProducts + 1) + p.commonData.NumGateConstraints
+//@   ensures[z1] forall(i, 0, p.commonData.Config.NumChallenges, vanishingTerms[i] == qe_mulo(l0Zeta, qe_subo(openings.PlonkZs[i], tuple(1, 0))))
+//@   ensures[gates] forall(k, 0, p.commonData.NumGateConstraints, vanishingTerms[p.commonData.Config.NumChallenges + p.commonData.Config.NumChallenges * (p.commonData.NumPartialProducts + 1) + k] == constraintTerms[k])
+//@   ensures[reduce] len(res) == p.commonData.Config.NumChallenges && forall(j, 0, p.commonData.Config.NumChallenges, canonQE(res[j]) && res[j] == qe_horner_s(vanishingTerms, proofChallenges.PlonkAlphas[j].Limb, 0))
+//@   loop 0 invariant 0 <= i && i <= p.commonData.Config.NumRoutedWires && i <= pow2(33) && len(sIDs) == p.commonData.Config.NumRoutedWires && forall(k, 0, i, canonQE(sIDs[k]) && sIDs[k] == qe_smulo(proofChallenges.PlonkZeta, p.commonDataKIs[k].Limb))
+//@   loop 1 invariant 0 <= i && i <= p.commonData.Config.NumChallenges && i <= pow2(17) && len(vanishingZ1Terms) == i && canonQEs(vanishingZ1Terms) && canonQEs(vanishingPartialProductsTerms) &&
+//@        len(vanishingPartialProductsTerms) == i * (p.commonData.NumPartialProducts + 1) &&
+//@        forall(k, 0, i, vanishingZ1Terms[k] == qe_mulo(l0Zeta, qe_subo(openings.PlonkZs[k], tuple(1, 0))))
+//@   loop 2 invariant 0 <= j && j <= p.commonData.Config.NumRoutedWires && j <= pow2(33) && len(numeratorValues) == j && len(denominatorValues) == j && canonQEs(numeratorValues) && canonQEs(denominatorValues) &&
+//@        forall(k, 0, j, numeratorValues[k] == qe_addo(qe_mulo(tuple(proofChallenges.PlonkBetas[i].Limb, 0), sIDs[k]), qe_addo(openings.Wires[k], tuple(proofChallenges.PlonkGammas[i].Limb, 0))) &&
+//@                      denominatorValues[k] == qe_addo(qe_mulo(tuple(proofChallenges.PlonkBetas[i].Limb, 0), openings.PlonkSigmas[k]), qe_addo(openings.Wires[k], tuple(proofChallenges.PlonkGammas[i].Limb, 0))))
+//@   loop 3 invariant 0 <= i && i <= p.commonData.Config.NumChallenges && i <= pow2(17) && len(reducedValues) == p.commonData.Config.NumChallenges && forall(k, 0, i, reducedValues[k] == tuple(0, 0))
+//@   loop 4 invariant -1 <= i && i < len(vanishingTerms) && len(reducedValues) == p.commonData.Config.NumChallenges &&
+//@        forall(k, 0, p.commonData.Config.NumChallenges, canonQE(reducedValues[k]) && reducedValues[k] == qe_horner_s(vanishingTerms, proofChallenges.PlonkAlphas[k].Limb, i + 1))
+//@   loop 5 invariant 0 <= j && j <= p.commonData.Config.NumChallenges && j <= pow2(17) && len(reducedValues) == p.commonData.Config.NumChallenges &&
+//@        forall(k, 0, j, canonQE(reducedValues[k]) && reducedValues[k] == qe_horner_s(vanishingTerms, proofChallenges.PlonkAlphas[k].Limb, i)) &&
+//@        forall(k, j, p.commonData.Config.NumChallenges, canonQE(reducedValues[k]) && reducedValues[k] == qe_horner_s(vanishingTerms, proofChallenges.PlonkAlphas[k].Limb, i + 1))
